@@ -45,6 +45,11 @@ def run(ctx):
         for front, V, vmap in (('v2', 'v2two', None), ('legacy', 'legacy', None)):
             cfgp = pc.mc_cfg('pit-S-' + front, front, 3, 3, 'match', V, R='R_two', E='E_all', defer='Def_both', races='Race_one', invs=[], props=[])
             pc.stage_b_sim(ctx, front, cfgp, '3 entries match/envelopes/defer', ctx.pick(300, 6000), 16, devs=DEVS[front], report_devs=False)
+        # connection life cycle (AppLife.tla; TLC on it runs in C17's stage A): Interests pending when the connection ends
+        # - by shutdown(), by the peer, by cancelling main_loop, by a failing after_start - finish as cancelled, Interests
+        # expressed without a connection are refused; only the pending / outcome variables are compared here
+        from harness import lifecheck
+        lifecheck.stage_b(ctx, 'C03', ctx.quick)
     if 'C' in ctx.stages:
         for front in ('v2', 'legacy'):
             # the legacy slow-validator deviation is C05's finding (C03's own text calls Data that arrived in time the
@@ -91,6 +96,9 @@ def impl_refinement(ctx):
 def replay(ctx, path):
     with open(path) as f:
         obj = json.load(f)
+    if obj.get('kind') == 'life':
+        from harness import lifecheck
+        return lifecheck.replay(ctx, obj)
     if obj.get('kind') != 'trace':
         print(json.dumps(obj, indent=1)[:4000])
         return 0
